@@ -53,8 +53,9 @@ def to_int_encoding(path, group="/"):
         ds.attrs["enum_path"] = "/chroms/name"
 
 
-def raw_tables(path):
-    with h5py.File(path, "r") as f:
+def raw_tables(path, group="/"):
+    with h5py.File(path, "r") as f0:
+        f = f0[group]
         names = [x.decode() for x in f["chroms/name"][:]]
         t = {"chroms": {"name": np.array(names, dtype=object), "length": f["chroms/length"][:]},
              "bins": {k: f["bins"][k][:] for k in f["bins"]},
@@ -227,14 +228,16 @@ def one_cooler(ctx, cid, rng, idx):
     E = {k: float(int(rng.integers(-40, 40))) / 4 for k in P}
     bex = {"gc": np.round(rng.random(n), 4), "cov": rng.integers(0, 1000, size=n)} if rng.random() < 0.6 else None
     path = ctx.path()
-    make_cooler(path, bt, P, symm=symm, extra={"score": E}, bins_extra=bex)
+    group = "/" if idx % 3 else "/deep/er/grp"
+    uri = path + ("::" + group if group != "/" else "")
+    make_cooler(uri, bt, P, symm=symm, extra={"score": E}, bins_extra=bex)
     enc = "int" if idx % 2 else "enum"
     if enc == "int":
-        to_int_encoding(path)
-    T = raw_tables(path)
+        to_int_encoding(path, group)
+    T = raw_tables(path, group)
     with ctx.case(cid, {"bt": bt, "symm": symm, "encoding": enc, "nnz": len(P), "bins_extra": bool(bex)}) as c:
-        c.feature(f"encoding:{enc}")
-        clr = cooler.Cooler(path)
+        c.feature(f"encoding:{enc}", "location:root" if group == "/" else "location:nested-group")
+        clr = cooler.Cooler(uri)
         nr = 60
         check_selector(c, "chroms", clr.chroms(), T["chroms"], ["name", "length"], rng, 25)
         bcols = ["chrom", "start", "end"] + [k for k in T["bins"] if k not in ("chrom", "start", "end")]
